@@ -22,6 +22,8 @@ def main(run: Run):
     run_configs(run, __name__, cfgs, must_accept=_mux.must_accept)
     from . import shadow_l1
     shadow_l1.add_to(run)
+    from . import mux_l1
+    mux_l1.add_to(run, "write")
     return run.finish(
         explanation="Multiplexer.elaborate write-side contract per layout: write-strobe exactness (one cycle after a write to the last address, never otherwise) for ALL input "
                     "sequences; atomicity via a ghost monitor of the chunks written in the open transaction and an inductive invariant over "
